@@ -41,6 +41,10 @@ def run(ctx):
     r4(ctx)
     r5(ctx)
     r6(ctx)
+    from . import c01
+    from .common import reuse
+
+    reuse(ctx, "C02.R7", [c01.r2], "the pending queue is mutated only at its two ends by enqueue/drain (a failed idempotent command stays queued until it is re-sent)")
 
 
 def _entry_attr(e, var, attr):
